@@ -11,7 +11,7 @@ TNext == /\ k <= Len(Tr) /\ k' = k + 1 /\ UNCHANGED vars
          /\ LET r == Tr[k] IN
             IF r.e = "reset" THEN TRUE
             ELSE /\ r.e = "pairs"
-                 /\ r.table = [i \in 1 .. Len(Pairings) |-> <<Pairings[i].o, Pairings[i].c, Pairings[i].p, Pairings[i].opt>>]
+                 /\ r.table = Table
                  /\ LET m == Run(r.toks) IN
                     /\ r.stack = 0
                     /\ r.mate = m.mate
